@@ -2493,7 +2493,7 @@ class LinearOperator(object):
         """
         # Case: summing everything
         if dim is None:
-            ones = torch.ones(self.size(-2), 1, dtype=self.dtype, device=self.device)
+            ones = torch.ones(self.size(-1), 1, dtype=self.dtype, device=self.device)
             return (self @ ones).sum()
 
         # Otherwise: make dim positive
